@@ -282,6 +282,26 @@ class CType(object):
         return (self.kind,)
 
 
+ROLE_TABLES = {
+    'lltd_iface_state': [('iface_ctx', 'void *'), ('next', 'struct lltd_iface_state *'), ('see_list', 'probe_t *'), ('see_list_count', 'uint32_t'),
+                         ('mapper_real', 'ethernet_address_t'), ('mapper_apparent', 'ethernet_address_t'), ('mapper_known', 'uint8_t'),
+                         ('mapper_seq', 'uint16_t'), ('mapper_gen_topology', 'uint16_t'), ('mapper_gen_quick', 'uint16_t'),
+                         ('small_icon', 'void *'), ('small_icon_size', 'size_t')],
+    'mapping_state': [('ctc', 'uint8_t'), ('charge_timeout_ts', 'uint64_t'), ('inactive_timeout_ts', 'uint64_t')],
+    'band_state': [('Ni', 'uint32_t'), ('r', 'uint32_t'), ('begun', 'bool'), ('hello_timeout_ts', 'uint64_t'), ('block_timeout_ts', 'uint64_t')],
+    'session_entry': [('mapper_mac', 'uint8_t[6]'), ('generation', 'uint16_t'), ('seq_number', 'uint16_t'), ('state', 'uint8_t'),
+                      ('complete', 'bool'), ('valid', 'bool'), ('last_activity_ts', 'uint64_t'), ('created_ts', 'uint64_t')],
+    'session_table': [('entries', 'session_entry[16]'), ('count', 'uint8_t'), ('all_complete', 'bool')],
+}
+_TYPE_ALIASES = {'_Bool': 'bool', 'unsigned char': 'uint8_t', 'unsigned short': 'uint16_t', 'unsigned int': 'uint32_t', 'unsigned long': 'size_t',
+                 'unsigned long long': 'uint64_t'}
+
+
+def _norm_type(qt):
+    qt = ' '.join(qt.replace('const ', '').replace('struct ', '').split())
+    return _TYPE_ALIASES.get(qt, qt)
+
+
 class Record(object):
     def __init__(self, key, name):
         self.key = key
@@ -296,7 +316,28 @@ class Record(object):
         self.line = None
 
     def field(self, name):
-        return self.field_by_name.get(name)
+        f = self.field_by_name.get(name)
+        if f is None:
+            f = self._by_role(name)
+        return f
+
+    def _by_role(self, name):
+        """A field of one of the core's internal records that was merely renamed: re-identified by its C type and its
+        position among the fields of that type (ROLE_TABLES lists the records as the rules know them).  None if the
+        record is not listed or the identification is ambiguous."""
+        table = ROLE_TABLES.get(self.name.replace('struct ', ''))
+        if not table:
+            return None
+        roles = dict(table)
+        if name not in roles:
+            return None
+        ty = _norm_type(roles[name])
+        known = set(n for n, _t in table)
+        missing = [n for n, t in table if _norm_type(t) == ty and n not in self.field_by_name]
+        unnamed = [x for x in self.fields if _norm_type(x[2]) == ty and x[0] not in known]
+        if len(missing) != len(unnamed) or name not in missing:
+            return None
+        return unnamed[missing.index(name)]
 
     def __repr__(self):
         return 'Record(%s,%s)' % (self.name, self.size)
